@@ -20,6 +20,7 @@ import (
 	"fmt"
 	"os"
 	"path/filepath"
+	"sort"
 	"strings"
 	"testing"
 
@@ -626,6 +627,131 @@ func c41Case(rt *rapid.T, rec *vh.Recorder, base string, procs bool) {
 	rec.Case(strings.Join(s.ops, "; "), s.nontrivial, cl...)
 }
 
+const c41RootlessRule = "directories whose manifest exists while the journal holds no complete root record: a rapid-drawn one-commit store (1..6 leaves + the first commit) whose journal is cut at 0, at every byte of its only root record, around every chunk record boundary and at seeded points inside the chunk records, with a seeded tail variant and journal.idx absent / as on disk; while a foreign holder has the LOCK the directory is opened without fail-fast (must be ReadOnly), loaded, read, written to (must be refused), closed — and opened with FailOnLockTimeout (must be ErrDatabaseLocked) — with the SHA-256 listing of the directory compared around every one of these actions. Non-trivial: the history has >= 2 records and cuts at 0, inside the root record and inside a chunk record were all exercised; distinct by op sequence + seed."
+
+// c41RootlessCase: read-only opens of a journal without any complete root record.
+func c41RootlessCase(rt *rapid.T, rec *vh.Recorder, base string) {
+	hdir := filepath.Join(base, "hist1")
+	_ = os.RemoveAll(hdir)
+	bufSz := rapid.SampledFrom([]uint32{256 << 10, 256 << 10, 8192, 5 << 20}).Draw(rt, "journalWriterBuffSize")
+	defer verifJWithBufSize(bufSz)()
+	h := verifJBuildHistory(rt, hdir, verifJHistCfg{minOps: 0, maxOps: 0, maxNovels: []int{0, 0, 2}, firstPuts: 5})
+	_ = os.RemoveAll(hdir)
+	seed := rapid.Uint64().Draw(rt, "variantSeed")
+	first := h.acks[0]
+	man := h.snaps[first.snap].manifest
+	if man == nil {
+		rt.Fatalf("no manifest after the first commit")
+	}
+	var rootRec verifJRec
+	for _, q := range h.recs {
+		if q.off+q.n == first.size {
+			rootRec = q
+		}
+	}
+	cutSet := map[int64]bool{0: true}
+	for c := rootRec.off; c < first.size; c++ {
+		cutSet[c] = true
+	}
+	r := verifJMix(seed, 0x41)
+	for _, q := range h.recs {
+		for d := int64(-1); d <= 1; d++ {
+			if c := q.off + d; c >= 0 && c < first.size {
+				cutSet[c] = true
+			}
+		}
+		if q.n > 2 && q.off+q.n <= rootRec.off {
+			cutSet[q.off+1+int64(r.intn(int(q.n-1)))] = true
+		}
+	}
+	for i := 0; i < 12 && rootRec.off > 0; i++ {
+		cutSet[int64(r.intn(int(rootRec.off)))] = true
+	}
+	cuts := make([]int64, 0, len(cutSet))
+	for c := range cutSet {
+		cuts = append(cuts, c)
+	}
+	sort.Slice(cuts, func(i, j int) bool { return cuts[i] < cuts[j] })
+	s := &c41State{rt: rt, rec: rec, h: h, dir: filepath.Join(base, "db1"), classes: map[string]bool{}}
+	defer os.RemoveAll(s.dir)
+	inRoot, inChunk := false, false
+	images := 0
+	for _, cut0 := range cuts {
+		cut := cut0
+		vr := verifJMix(seed, uint64(cut)+9)
+		tail := vr.intn(c03NTails)
+		tb := c03TailBytes(h.J, seed, cut, tail)
+		img := append(append([]byte{}, h.J[:cut]...), tb...)
+		for cut < int64(len(h.J)) && cut < int64(len(img)) && img[cut] == h.J[cut] {
+			cut++
+		}
+		if cut >= first.size {
+			continue // the root record became complete
+		}
+		var idx []byte
+		if vr.intn(2) == 0 {
+			idx = h.snaps[first.snap].idx
+		}
+		if err := verifJWriteImage(s.dir, img, man, idx); err != nil {
+			vh.Inconclusive(rt, "cannot write image: %v", err)
+		}
+		images++
+		what := fmt.Sprintf("journal without a complete root record (cut %d of the %d bytes of the first commit, root record at %d, tail %s %dB), manifest of the first commit present, lock held by a foreign holder", cut0, first.size, rootRec.off, c03TailNames[tail], len(tb))
+		s.ops = []string{what}
+		lock, _, err := newJournalLock(s.dir, 0, false)
+		if err != nil || lock == nil {
+			vh.Inconclusive(rt, "harness could not take the lock: %v", err)
+		}
+		func() {
+			defer func() { _ = lock.Unlock(); _ = lock.Close() }()
+			s.unchanged("fail-fast open", func() {
+				st, err := verifJOpen(s.dir, JournalingStoreOptions{FailOnLockTimeout: true, SkipLockFileTimeout: true}, nil)
+				if !errors.Is(err, ErrDatabaseLocked) {
+					if st != nil {
+						_ = st.Close()
+					}
+					rt.Fatalf("%s: fail-fast open = %v, want ErrDatabaseLocked", what, err)
+				}
+			})
+			var st *NomsBlockStore
+			s.unchanged("read-only fallback open", func() {
+				st, err = verifJOpen(s.dir, JournalingStoreOptions{SkipLockFileTimeout: true}, nil)
+			})
+			if err != nil {
+				rt.Fatalf("%s: open: %v", what, err)
+			}
+			if st.AccessMode() != chunks.ExclusiveAccessMode_ReadOnly {
+				_ = st.Close()
+				rt.Fatalf("%s: access mode %v, want ReadOnly", what, st.AccessMode())
+			}
+			var lerr error
+			s.unchanged("load+read through the read-only handle", func() {
+				if _, lerr = verifJLoad(st); lerr == nil {
+					_, _ = verifJReadView(st, h.order, false)
+				}
+			})
+			if lerr == nil {
+				s.unchanged("Put+Commit through the read-only handle", func() {
+					c := chunks.NewChunk(append([]byte{0x14}, vr.bytes(30)...))
+					if perr := st.Put(verifJCtx, c, verifJGetAddrs); perr == nil {
+						if ok, cerr := st.Commit(verifJCtx, c.Hash(), hash.Hash{}); ok && cerr == nil {
+							rt.Fatalf("%s: Commit through a read-only handle reported success", what)
+						}
+					}
+				})
+			}
+			s.unchanged("Close of the read-only handle", func() { _ = st.Close() })
+		}()
+		if cut0 > rootRec.off {
+			inRoot = true
+		} else if cut0 > 0 {
+			inChunk = true
+		}
+	}
+	rec.Evals(images)
+	rec.Case(fmt.Sprintf("%s || first commit %d B, %d records, %d images, seed %x", h.opsString(), first.size, len(h.recs), images, seed), len(h.recs) >= 2 && inRoot && inChunk, fmt.Sprintf("bufSz=%d", bufSz))
+}
+
 func TestVerif_C41(t *testing.T) {
 	rec := vh.NewRecorder("C41", "handles", "exploration", c41Rule,
 		"in-process variant: separate store handles (separate open file descriptions of LOCK) stand for separate processes; kill -9 of a writer and real concurrency between processes are not modelled here",
@@ -636,6 +762,10 @@ func TestVerif_C41(t *testing.T) {
 	base, cleanup := vh.ScratchDir(t, "c41-")
 	defer cleanup()
 	vh.Check(t, "handles", 70, 180, func(rt *rapid.T) { c41Case(rt, rec, base, false) })
+	rec2 := vh.NewRecorder("C41", "ro_rootless", "exploration", c41RootlessRule,
+		"what such a directory shows (root, chunks) is C03's business; here only access modes and byte-identity of the directory are asserted")
+	defer rec2.Write(t)
+	vh.Check(t, "ro_rootless", 6, 12, func(rt *rapid.T) { c41RootlessCase(rt, rec2, base) })
 }
 
 // TestVerif_C41_proc is the multi-process variant (thorough tier): the same schedules and
